@@ -140,6 +140,7 @@ func (dm *DMap) deleteKey(key string) error {
 }
 
 func (dm *DMap) deleteKeys(ctx context.Context, keys ...string) (int, error) {
+	var total int
 	members := make(map[discovery.Member][]string)
 	for _, key := range keys {
 		hkey := partitions.HKey(dm.name, key)
@@ -153,6 +154,7 @@ func (dm *DMap) deleteKeys(ctx context.Context, keys ...string) (int, error) {
 				if err := dm.deleteKey(key); err != nil {
 					return 0, err
 				}
+				total++
 			}
 		} else {
 			cmd := protocol.NewDel(dm.name, distributedKeys...).Command(dm.s.ctx)
@@ -161,12 +163,15 @@ func (dm *DMap) deleteKeys(ctx context.Context, keys ...string) (int, error) {
 			if err != nil {
 				return 0, protocol.ConvertError(err)
 			}
-
-			return 0, protocol.ConvertError(cmd.Err())
+			count, err := cmd.Result()
+			if err != nil {
+				return 0, protocol.ConvertError(err)
+			}
+			total += int(count)
 		}
 	}
 
-	return len(keys), nil
+	return total, nil
 }
 
 // Delete deletes the value for the given key. Delete will not return error if key doesn't exist. It's thread-safe.
